@@ -42,11 +42,11 @@ def _mul_big(c, sh):
 
 
 def run(tier, only=None):
-    from contracts import translator, types_ops
+    from contracts import statements, translator, types_ops
     rep = Report("C01", tier, "proof", f"./check C01 --tier {tier}")
     rnd = random.Random(common.SEED)
     jobs, canaries, cross = [], [], []
-    l1, l2 = types_ops.all_contracts(), translator.all_contracts()
+    l1, l2 = types_ops.all_contracts(), translator.all_contracts() + statements.all_contracts()
     for layer, cs in (("L1", l1), ("L2", l2)):
         for c in cs:
             if only and only not in c.name and only != layer:
@@ -135,8 +135,8 @@ def replay(path):
     d = json.load(open(path))
     print(json.dumps({k: d.get(k) for k in ("obligation", "function", "shape", "clause", "replay", "raised")}, indent=1, default=str))
     # re-run the obligation on the current tree
-    from contracts import translator, types_ops
-    for layer, cs in (("L1", types_ops.all_contracts()), ("L2", translator.all_contracts())):
+    from contracts import statements, translator, types_ops
+    for layer, cs in (("L1", types_ops.all_contracts()), ("L2", translator.all_contracts() + statements.all_contracts())):
         for c in cs:
             for sh in c.shapes("thorough"):
                 if any(c.oname(cl, sh) == d["obligation"] for cl in (d.get("clause", ""),)):
